@@ -114,6 +114,13 @@ type EnumSchema struct {
 var _ RootSchema = (*EnumSchema)(nil)
 
 func (s *EnumSchema) OptionByName(name string) *EnumOption {
+	// the short name as written takes precedence: a short name may itself
+	// begin with the prefix (MODE_MODE_X has the short name MODE_X)
+	for _, opt := range s.Options {
+		if opt.name == name {
+			return opt
+		}
+	}
 	shortName := strings.TrimPrefix(name, s.NamePrefix)
 	for _, opt := range s.Options {
 		if opt.name == shortName {
